@@ -44,7 +44,13 @@ def mk_pool_cfg(ip, prog, shard_specs, users=('u',), **over):
 
 
 def install(ip, cfg):
-    ip.overrides.append((re.compile(r'^(?:config::)?get_config$'), lambda c: cfg))
+    """get_config() returns `cfg` from now on.  (The override list of an interpreter outlives a path: an installation made on an earlier path is
+    replaced, not shadowed.)"""
+    def h(c):
+        return cfg
+    h._fc_install = True
+    ip.overrides[:] = [o for o in ip.overrides if not getattr(o[1], '_fc_install', False)]
+    ip.overrides.append((re.compile(r'^(?:config::)?get_config$'), h))
 
 
 def pools_static(ip):
